@@ -7,6 +7,7 @@ import (
 	"fmt"
 	"math/big"
 	"sort"
+	"sync/atomic"
 	"time"
 
 	"github.com/Factom-Asset-Tokens/factom"
@@ -22,8 +23,8 @@ import (
 )
 
 func (d *Pegnetd) GetCurrentSync() uint32 {
-	// Should be thread safe since we only have 1 routine writing to it
-	return d.Sync.Synced
+	// Only the sync routine writes it, and only after the block is committed
+	return atomic.LoadUint32(&d.Sync.Synced)
 }
 
 // DBlockSync iterates through dblocks and syncs the various chains
@@ -118,12 +119,12 @@ OuterSyncLoop:
 				continue OuterSyncLoop
 			}
 
-			// Bump our sync, and march forward
-
-			d.Sync.Synced++
-			err = d.Pegnet.InsertSynced(tx, d.Sync)
+			// Bump our sync, and march forward. The new height is written to the database inside
+			// the transaction, but only published to the API (GetCurrentSync) once the block is
+			// committed, so no request ever sees the height of a block that is not applied yet.
+			next := &pegnet.BlockSync{Synced: d.Sync.Synced + 1}
+			err = d.Pegnet.InsertSynced(tx, next)
 			if err != nil {
-				d.Sync.Synced--
 				hLog.WithError(err).Errorf("unable to update synced metadata")
 				err = tx.Rollback()
 				if err != nil {
@@ -135,14 +136,15 @@ OuterSyncLoop:
 
 			err = tx.Commit()
 			if err != nil {
-				d.Sync.Synced--
 				hLog.WithError(err).Errorf("unable to commit transaction")
 				err = tx.Rollback()
 				if err != nil {
 					// TODO evaluate if we can recover from this point or not
 					hLog.WithError(err).Fatal("unable to roll back transaction")
 				}
+				continue OuterSyncLoop
 			}
+			atomic.StoreUint32(&d.Sync.Synced, next.Synced)
 
 			elapsed := time.Since(start)
 			hLog.WithFields(log.Fields{"took": elapsed}).Debugf("synced")
